@@ -404,3 +404,65 @@ func TestC14Exhaustive(t *testing.T) {
 		t.Fatalf("%s", ct.first)
 	}
 }
+
+// C14Huge: a Code 39 content of N repetitions of one character (thorough tier): the modulo-43 sum of millions of
+// character values must not be accumulated in anything narrower than the sum needs (51.2 million '%' reach 2^31).
+// Only CheckSum() is judged here, directly and through Scale - reading 600 million pixels back is left to the other parts.
+type C14Huge struct {
+	N    int    `json:"n"`
+	Char string `json:"char"`
+}
+
+func checkC14Huge(t TB, c C14Huge) {
+	const P, K = "C14", "checksum-huge"
+	noteCase(P, K, c)
+	v := ref.Code39Value(c.Char[0])
+	if v < 0 || c.N < 1 {
+		return
+	}
+	want := int(int64(v) * int64(c.N) % 43)
+	var bc barcode.BarcodeIntCS
+	var err error
+	if pv := try(func() { bc, err = code39.Encode(strings.Repeat(c.Char[:1], c.N), false, false) }); pv != nil {
+		failf(t, P, K, c, "%v", pv)
+	}
+	if err != nil || nilBarcode(bc) {
+		failf(t, P, K, c, "a Code 39 text of %d characters %q is rejected: %v", c.N, c.Char, err)
+	}
+	if got := bc.CheckSum(); got != want {
+		failf(t, P, K, c, "CheckSum()=%d, the modulo-43 value of %d x %q is %d", got, c.N, c.Char, want)
+	}
+	var sc barcode.Barcode
+	if pv := try(func() { sc, err = barcode.Scale(bc, bc.Bounds().Dx()*2+3, 2) }); pv != nil || err != nil {
+		failf(t, P, K, c, "Scale: %v %v", err, pv)
+	}
+	ics, ok := sc.(barcode.BarcodeIntCS)
+	if !ok {
+		failf(t, P, K, c, "the scaled barcode does not expose CheckSum()")
+	}
+	if got := ics.CheckSum(); got != want {
+		failf(t, P, K, c, "after Scale CheckSum()=%d, want %d", got, want)
+	}
+}
+
+func init() { register("checksum-huge", func(t TB, c C14Huge) { checkC14Huge(t, c) }) }
+
+// TestC14Huge (thorough tier; about six minutes and 1 GB: BitList grows in fixed steps).
+func TestC14Huge(t *testing.T) {
+	st := NewStats("C14", "huge")
+	defer st.Flush()
+	ct := &collectTB{}
+	cases := []C14Huge{{N: 3000000, Char: "%"}, {N: 51200000, Char: "%"}}
+	parallelFor(len(cases), 2, func(i int) {
+		ct.guard(func() {
+			checkC14Huge(ct, cases[i])
+			st.Eval()
+			st.NonTrivial(H("c14huge", cases[i].N, cases[i].Char))
+			st.Class("Code 39 content of millions of characters (CheckSum() only)")
+		})
+	})
+	st.Sample("huge", cases[1])
+	if ct.Failed() {
+		t.Fatalf("%s", ct.first)
+	}
+}
